@@ -738,13 +738,6 @@ func observe(dir string, c cfgT, snap bool, full bool) (o *obsT) {
 					ss = append(ss, x)
 				}
 			}
-			for _, ch := range s.InOrder {
-				for _, x := range ch.Samples {
-					if x.T >= mv {
-						add(smp{x.T, int64(x.V)})
-					}
-				}
-			}
 			// out-of-order samples that are already in a block are left out: after an OOO
 			// compaction the m-mapped OOO chunk stays in chunks_head and a WAL restart attaches it
 			// again to a series re-created from its series record (C01 finding
@@ -752,6 +745,17 @@ func observe(dir string, c cfgT, snap bool, full bool) (o *obsT) {
 			inBlk := map[smp]bool{}
 			for _, x := range o.Blk[l] {
 				inBlk[x] = true
+			}
+			for _, ch := range s.InOrder {
+				for _, x := range ch.Samples {
+					// (the WAL also logs out-of-order samples; a WAL restart appends those above the
+					// series' newest in-order sample as IN-ORDER samples, a snapshot restart keeps
+					// them out of order only: once they are in an OOO block the two heads differ in
+					// representation only)
+					if y := (smp{x.T, int64(x.V)}); x.T >= mv && !inBlk[y] {
+						add(y)
+					}
+				}
 			}
 			for _, ch := range s.OOO {
 				for _, x := range ch.Samples {
